@@ -126,6 +126,13 @@ def solve_scalar(
         ._linearize_binary_operators()
     )
 
+    if any(coeff.has(sympy.zoo, sympy.nan) for coeff in result.terms.values()):
+        # The denominator vanishes once fermionic or spin numbers are substituted.
+        raise ValueError(
+            "The perturbation couples degenerate levels of the unperturbed "
+            "Hamiltonian."
+        )
+
     if diagonal:
         result -= result.adjoint()
 
